@@ -45,6 +45,25 @@ func (fr *Frame) callResolved(st *State, c *ssa.CallCommon, fv Val, args []Val, 
 			}
 			unsupported("dynamic call through %s: no `extern func dyn %s` contract", c.Value.Name(), prov)
 		}
+		// an unknown function value (typically a function-typed parameter of the function under verification):
+		// assumed pure, modelled as an uninterpreted application
+		if sig := c.Signature(); sig.Results().Len() == 1 {
+			var ts []Term
+			okArgs := true
+			for _, a := range args {
+				t, ok := a.(Term)
+				if !ok {
+					okArgs = false
+					break
+				}
+				ts = append(ts, t)
+			}
+			if okArgs {
+				res := r.def("fnres", r.fnApp(f, ts, sig))
+				r.knownFacts(st, res, sig.Results().At(0).Type())
+				return res
+			}
+		}
 		unsupported("dynamic call through function value %s (%s; known: %v)", c.Value.Name(), f.S, r.funcProv)
 	}
 	_ = r
